@@ -43,9 +43,9 @@ def prove(ob, func, hyp, goal, kind="deciding", timeout_s=10.0, model_vars=None,
     from .solve import discharge
 
     from . import solve as _solve
-    from .sym import sqrt_axioms, div_axioms
+    from .sym import sqrt_axioms, div_axioms, pow_axioms
     hyp, goal = z3.simplify(hyp), z3.simplify(goal)
-    ax = sqrt_axioms(hyp, goal) + div_axioms(hyp, goal)
+    ax = sqrt_axioms(hyp, goal) + div_axioms(hyp, goal) + pow_axioms(hyp, goal)
     if ax:
         hyp = z3.And(hyp, *ax)
     saved = _solve.VIOLATION_BUDGET["left"]
